@@ -83,11 +83,14 @@ ASSUMPTIONS = [
     'StratifiedSFCNNPS(asymmetric=...) raises TypeError (keyword missing '
     'in __cinit__): clean rejection, only the default mode is tested',
     'gids, when valid, are unique per array',
+    'StratifiedSFCNNPS builds its keys with a 32-bit shift by '
+    '1+3*ceil(log2(extent/(radius_scale*hmin))): more than 1024 finest '
+    'cells per axis are not representable; the generator stays below',
     'StratifiedHashNNPS scans (2*ceil(H*h_dst/h_src_level)+1)^3 boxes per '
     'query; to bound run time the generator keeps H*hmax/hmin <= 24 for '
     'this class (larger ratios are the open finding on its cost/crash)',
     'a child that makes no progress for %d s is recorded as a hang '
-    '(harness guard only)' % 60,
+    '(harness guard only)' % 90,
 ]
 
 M = 65521
@@ -137,7 +140,7 @@ ESSENTIAL_LABELS = {'all': [
     for v in vs)}
 
 SHARD_TIMEOUT = {'quick': 1500, 'thorough': 6 * 3600}
-HANG_S = 60
+HANG_S = 90
 
 
 # --------------------------------------------------------------------------
@@ -288,6 +291,10 @@ def _subset(n, k, g, s):
 def fine_cap(cls, dim):
     """Largest number of finest cells per axis the class can represent
     within the harness memory budget."""
+    if cls == 'StratifiedSFCNNPS':
+        # its keys use `1 << (1 + 3*ceil(log2(extent/(rs*hmin))))` in 32-bit
+        # arithmetic: at most 1024 finest cells per axis are representable
+        return {1: 1000.0, 2: 1000.0, 3: 100.0}[dim]
     if cls in DENSE:
         return {1: 4096.0, 2: 1400.0, 3: 100.0}[dim]
     return 1e9
